@@ -12,6 +12,13 @@ What is demanded, for ALL pairs of models (L1, K1), (L2, K2) and all significanc
         threshold = chi2.ppf(1 - significance_level, degrees of freedom)
     (`scipy.stats.chi2.ppf` is a LIBSPEC uninterpreted function: what is proved is which arguments it gets);
   * the verdict compares exactly these two figures.
+
+Ties are where the code (as of the snapshot) depends on the argument order, and only the two `raises:*` obligations
+see them (the figure clauses are stated for acceptable orderings only):
+    likelihood_ratio_test((-100, 3), (-110, 3)) returns ('H0 can be rejected ...', 20.0, nan)   [0 degrees of freedom]
+    likelihood_ratio_test((-110, 3), (-100, 3)) raises BiogemeError
+    likelihood_ratio_test((-100, 5), (-100, 3)) raises BiogemeError ("... has a lower log likelihood": it is equal)
+    likelihood_ratio_test((-100, 3), (-100, 5)) returns ('H0 cannot be rejected ...', 0.0, 5.99)
 """
 from pyvc.contract import contract
 
